@@ -3,6 +3,7 @@ package props
 import (
 	"context"
 	"fmt"
+	"os"
 	"time"
 
 	"github.com/aperturerobotics/bifrost/link"
@@ -47,6 +48,7 @@ type c05World struct {
 	finalAsked       bool
 	final            *c05Watch
 	healed           bool
+	dialStr          string
 }
 
 type c05Dial struct {
@@ -84,7 +86,7 @@ func init() {
 		Cfg:        dsim.Config{MaxChaosSteps: 400, MaxStableSteps: 60000, Horizon: 5 * time.Minute},
 		Real:       []string{"transport/controller.Controller (DialPeerAddr, link dialers, EstablishLinkWithPeer resolver, flushEstablishedLink dialer restart)", "transport/common/dialer.Dialer (backoff retry)", "transport/common/pconn.Transport, transport/common/quic (Transport.DialPeer, Dialer, HandleSession, Link)", "crypto/tls identity + certificate verification", "quic-go v0.59 and crypto/tls handshakes", "controllerbus, peer controller"},
 		Stub:       []string{"net.PacketConn is a simulator-owned datagram endpoint (worlds/pnet): delivery order, loss, duplication, corruption and address binding are driver decisions", "websocket and WebRTC dial paths are not run (real sockets / pion)"},
-		FaultKinds: []string{"fault:address-rebind-to-impostor", "fault:address-rebind-to-owner", "fault:packet-loss", "fault:packet-dup", "fault:packet-reorder", "fault:packet-corrupt", "fault:clock-jump", "fault:dial-cancel"},
+		FaultKinds: []string{"fault:address-rebind-to-impostor", "fault:address-rebind-to-owner", "fault:packet-loss", "fault:packet-dup", "fault:packet-reorder", "fault:packet-corrupt", "fault:clock-jump", "fault:dial-cancel", "fault:concurrent-dial-other-peer", "fault:alias-dial-string"},
 	})
 }
 
@@ -103,7 +105,13 @@ func (w *c05World) Setup(s *dsim.Sim) {
 	w.x = w.net.AddNode("X", "X")
 	w.i = w.net.AddNode("I", "I")
 	xid := w.net.Party("X").IDs
-	static := map[string]*dialer.DialerOpts{xid: {Address: "ax"}}
+	// in some runs the configured dial string is an alias spelling of the address
+	w.dialStr = "ax"
+	if t.Bool(1, 3, "alias-address") {
+		w.dialStr = "@ax"
+		s.Count("fault:alias-dial-string")
+	}
+	static := map[string]*dialer.DialerOpts{xid: {Address: w.dialStr}}
 	w.cx = w.pn.Listen("X", "ax")
 	w.ci = w.pn.Listen("I", "ax") // same address: reachable only while bound
 	w.pn.Rebind("ax", w.cx)
@@ -116,6 +124,12 @@ func (w *c05World) Setup(s *dsim.Sim) {
 	w.tn = w.n.AddQuicTransport("tn", "N", cn, static, onEst("N"))
 	w.tx = w.x.AddQuicTransport("tx", "X", w.cx, nil, onEst("X"))
 	w.ti = w.i.AddQuicTransport("ti", "I", w.ci, nil, onEst("I"))
+	for _, tc := range []*node.TC{w.tn, w.tx, w.ti} {
+		tc := tc
+		tc.Rec.OnLost = func(l link.Link) {
+			s.Logf("link-lost at %s: remote=%s", tc.P.Name, w.net.Names[l.GetRemotePeer().String()])
+		}
+	}
 	w.maxOps = 2 + t.Draw(8, "max-ops")
 	w.loss = t.Draw(6, "loss-budget")
 	if t.Bool(1, 3, "start-with-impostor") {
@@ -128,15 +142,18 @@ func (w *c05World) Setup(s *dsim.Sim) {
 	}
 }
 
-func (w *c05World) dial() *c05Dial {
+func (w *c05World) dial() *c05Dial { return w.dialFor(w.tx, "X") }
+
+// dialFor dials address "ax" requiring the remote peer to be the identity of want.
+func (w *c05World) dialFor(want *node.TC, wantName string) *c05Dial {
 	s := w.s
 	d := &c05Dial{id: len(w.dials)}
 	w.dials = append(w.dials, d)
 	ctx, cancel := context.WithCancel(w.n.Ctx())
 	d.cancel = cancel
-	s.Logf("dial #%d X@ax (ax is served by %s)", d.id, w.pn.BoundName("ax"))
+	s.Logf("dial #%d %s@ax (ax is served by %s)", d.id, wantName, w.pn.BoundName("ax"))
 	go func() {
-		lnk, err := w.tn.Ctrl.DialPeerAddr(ctx, w.tx.P.ID, &dialer.DialerOpts{Address: "ax"})
+		lnk, err := w.tn.Ctrl.DialPeerAddr(ctx, want.P.ID, &dialer.DialerOpts{Address: w.dialStr})
 		d.done, d.lnk, d.err = true, lnk, err
 		who := "-"
 		if lnk != nil {
@@ -145,9 +162,9 @@ func (w *c05World) dial() *c05Dial {
 		s.Logf("dial #%d returned link-to=%s err=%v", d.id, who, err)
 		if err == nil && lnk != nil {
 			s.Count("done:dial")
-			if lnk.GetRemotePeer() != w.tx.P.ID {
+			if lnk.GetRemotePeer() != want.P.ID {
 				w.fail(&dsim.Violation{Property: "C05", Rule: "dial-for-X-returned-link-to-other-peer", Witness: "DialPeerAddr",
-					Detail: fmt.Sprintf("DialPeerAddr(X, \"ax\") reported success with a link whose authenticated remote peer is %s", who)})
+					Detail: fmt.Sprintf("DialPeerAddr(%s, \"ax\") reported success with a link whose authenticated remote peer is %s", wantName, who)})
 			}
 		}
 	}()
@@ -192,6 +209,9 @@ func (w *c05World) Actions(s *dsim.Sim, add func(dsim.Action)) {
 	}
 	if pending < 2 {
 		add(dsim.Action{Name: "3op:dial", Weight: 6, Fire: func() { w.ops++; w.dial() }})
+		// another caller wants the impostor's identity at the same address (its dial shares
+		// the transport's per-address dialer with a dial for X that is in flight)
+		add(dsim.Action{Name: "3op:dial-for-other-peer", Weight: 2, Fire: func() { w.ops++; s.Count("fault:concurrent-dial-other-peer"); w.dialFor(w.ti, "I") }})
 	}
 	for _, d := range w.dials {
 		d := d
@@ -233,12 +253,29 @@ func (w *c05World) Final(s *dsim.Sim, stuck bool) *dsim.Violation {
 		return nil
 	}
 	if w.final.vals == 0 {
+		dbg := ""
+		if os.Getenv("DSIM_DEBUG") != "" {
+			for _, tc := range []*node.TC{w.tn, w.tx} {
+				u, p := tc.Ctrl.VerifLinks()
+				for k, l := range u {
+					dbg += fmt.Sprintf("\nDEBUG %s byUUID %d -> remote=%s closed=%v", tc.Name, k, w.net.Names[l.GetRemotePeer().String()], closed(l))
+				}
+				for k, ls := range p {
+					dbg += fmt.Sprintf("\nDEBUG %s byPeer %s -> %d links", tc.Name, w.net.Names[k], len(ls))
+				}
+				for _, a := range []string{"ax", "an"} {
+					if l, ok := tc.Quic.LookupLinkWithAddr(a); ok {
+						dbg += fmt.Sprintf("\nDEBUG %s transport addr %s -> remote=%s closed=%v", tc.Name, a, w.net.Names[l.GetRemotePeer().String()], closed(l))
+					}
+				}
+			}
+		}
 		if !stuck {
 			s.Inconclusive = "horizon reached while the system was still busy"
 			return nil
 		}
 		return &dsim.Violation{Property: "C05", Rule: "request-for-X-never-satisfied", Witness: "after-heal",
-			Detail: "after the last fault X owns its address again and the impostor is gone, but EstablishLinkWithPeer(X) had no value when the system went quiescent for the whole horizon"}
+			Detail: "after the last fault X owns its address again and the impostor is gone, but EstablishLinkWithPeer(X) had no value when the system went quiescent for the whole horizon" + dbg}
 	}
 	s.Count("done:final-request")
 	return nil
